@@ -21,7 +21,8 @@ def parseMsg (j : Json) : JE Msg := do
          calls := (← (J.arrD j "calls").mapM parseCall), callId := J.strD j "callId" "" }
 
 def parseChunk (j : Json) : JE Chunk := do
-  pure { content := J.strD j "content" "", calls := (← (J.arrD j "calls").mapM parseCall) }
+  pure { content := J.strD j "content" "", calls := (← (J.arrD j "calls").mapM parseCall),
+         extras := (← (J.arrD j "extras").mapM J.asStr) }
 
 def parseReply (j : Json) : JE Reply := do
   pure { chunks := (← (← J.arr j "chunks").mapM parseChunk) }
@@ -51,6 +52,14 @@ def parseChecker (s : String) : JE (Option CheckerSpec) :=
   | "default" => pure none
   | "whole" => pure (some wholeStreamChecker)
   | c => throw s!"bad checker {c}"
+
+/-- "agent" (Agent.Generate/Stream, default) | "chain" | "graph" (the graph returned by
+    ExportGraph inside a parent chain / graph) -/
+def parseHost (s : String) : JE Host :=
+  match s with
+  | "" | "agent" => pure .agent
+  | "chain" | "graph" => pure .exported
+  | h => throw s!"bad host {h}"
 
 def roleStr : Role → String
   | .system => "system" | .user => "user" | .assistant => "assistant" | .tool => "tool"
@@ -88,7 +97,8 @@ def topoJson (T : Topo) : Json :=
     ("branches", J.mkArr (T.branches.map fun b => Json.mkObj [("from", b.1), ("ends", J.mkStrs b.2)]))]
 
 /-- case {"kind":"topology","rd":bool} → the model's topology table;
-    case {"kind":"run", orig, script, tools, rd, maxStep, modifier, checker} → both modes -/
+    case {"kind":"run", orig, script, tools, rd, maxStep, modifier, checker, host} → both modes
+    (chunks: {content, calls, extras}) -/
 def handle (c : Json) : JE Json := do
   let F := Expected.C18.facts
   match J.strD c "kind" "run" with
@@ -102,11 +112,12 @@ def handle (c : Json) : JE Json := do
     let maxStep ← J.int c "maxStep"
     let modifier ← parseModifier (J.strD c "modifier" "none")
     let checker ← parseChecker (J.strD c "checker" "default")
+    let host ← parseHost (J.strD c "host" "agent")
     let cfg : Config := { tools := lookupTool tools, returnDirectly := rd, maxStep := maxStep,
                           modifier := modifier, checker := checker }
     pure <| Json.mkObj [
-      ("generate", runJson (run F cfg .generate orig script)),
-      ("stream", runJson (run F cfg .stream orig script)),
-      ("limit", match stepLimit F cfg with | some n => (n : Json) | none => Json.null)]
+      ("generate", runJson (runAt F host cfg .generate orig script)),
+      ("stream", runJson (runAt F host cfg .stream orig script)),
+      ("limit", match stepLimit (F.forHost host) cfg with | some n => (n : Json) | none => Json.null)]
 
 end EinoV.Oracle.C18
